@@ -16,6 +16,7 @@ holds for arbitrary bytes) but the whole-history proof below goes through the C1
 invariant and therefore assumes it.
 -/
 import SerfProofs.Lemmas.SnapshotRuns
+import SerfModel.Gen.SnapshotLeave
 namespace SerfProofs.C13
 open SerfModel SerfModel.Snapshot SerfProofs.Snapshot
 
@@ -88,5 +89,47 @@ example : ∀ e ∈ [Ev.join [(['a'], ['1', ':', '2'])] 5] ++ (Ev.leave :: [Ev.j
   intro e he
   simp only [List.cons_append, List.nil_append, List.mem_cons, List.mem_nil_iff, or_false] at he
   rcases he with rfl | rfl | rfl | rfl | rfl <;> simp [WFEv, WFName, WFAddr]
+
+/-! ## The order of the leave branch (regenerated tie)
+
+`step … .leave` clears the rejoin set BEFORE it appends the `leave` line: that append may
+be the one that crosses the compaction threshold, and `compact` writes what the alive map
+holds at that moment. `SerfModel.Gen.SnapshotLeave` is regenerated on every run from the
+`case <-s.leaveCh:` branch of `Snapshotter.stream()` and from the hook `VerifSnap.Leave()`
+that repeats this branch for the synchronous lives of the harness. -/
+
+open SerfModel.Gen.SnapshotLeave in
+/-- The source branch has the statement order the model's `step … .leave` assumes. -/
+theorem C13_gen_leave_branch_order :
+    streamLeaveKinds = ["leaving", "clear-unless-rejoin", "append-leave", "flush", "sync"] := by decide
+
+open SerfModel.Gen.SnapshotLeave in
+/-- The hook copy used by the synchronous lives is, statement by statement, the source branch. -/
+theorem C13_gen_leave_hook_is_source :
+    hookLeaveBody = streamLeaveBranch ∧ hookLeaveKinds = streamLeaveKinds := by decide
+
+/-- The other order (append the `leave` line, THEN clear the rejoin set). -/
+def leaveAppendFirst (ord : Order) (s : Snap) : Snap × List FsOp :=
+  let r := appendLine ord { s with leaving := true } (printLine .leave)
+  ({ r.1 with buf := [], alive := if s.rejoin then r.1.alive else [] }, r.2 ++ flushOps .main r.1.buf ++ [.sync .main])
+
+def orderWitnessName : Name := List.replicate 250 'a'
+def orderWitnessPre : List Ev := [.join [(orderWitnessName, ['1', ':', '2'])] 1]
+
+/-- one join (262 bytes, threshold 262), the leave in the other order, shutdown -/
+def orderWitnessLife : Snap × List FsOp :=
+  let r0 := Snap.init false 262
+  let r1 := run Order.id r0.1 orderWitnessPre
+  let r2 := leaveAppendFirst Order.id r1.1
+  let r3 := shutdown Order.id r2.1 1
+  (r3.1, r0.2 ++ r1.2 ++ r2.2 ++ r3.2)
+
+/-- The order is necessary: when the 6-byte `leave` line is the append that compacts, the
+other order rewrites the file as alive lines + clocks, the marker is lost and a restart
+re-joins; the order of the code (same history) recovers nothing. -/
+theorem C13_leave_order_necessary :
+    (recover false (FS.applyAll {} orderWitnessLife.2)).alive = [(orderWitnessName, ['1', ':', '2'])]
+    ∧ (recover false (FS.applyAll {} (life Order.id false 262 {} (orderWitnessPre ++ [Ev.leave]) 1).2)).alive = [] := by
+  decide +kernel
 
 end SerfProofs.C13
